@@ -376,6 +376,7 @@ class Emitter:
         self.n_inverse_pairs = emit_inverse_pairs(self)
         emit_hash_rows(self)
         emit_angle_lists(self)
+        emit_table_obligations(self)
         emit_const_cmps(self)
         self._emit_pairs = lambda umods: emit_pairs_obligations(self, umods)
         # aggregate
@@ -444,7 +445,7 @@ class Emitter:
     def emit_tables(self):
         t = self.tables
         L = ['-- GENERATED by emit_lean.py from /repo/include -- do not edit.',
-             'import PhQVerif.Core.Tables', 'set_option maxRecDepth 100000',
+             'import PhQVerif.Core.Tables', 'import PhQVerif.Core.UnitCheck', 'set_option maxRecDepth 100000',
              'namespace PhQVerif.Generated', '']
         # classes
         rows = []
@@ -472,6 +473,13 @@ class Emitter:
         L.append('def plainEnums : List UnitType := [\n  ' + ',\n  '.join(rows) + ']')
         L.append('')
         L.append('def standardUnitSystem : Nat := %d' % t['standard_unit_system'])
+        ui = self.unit_index
+        L.append('/-- Unit types of the base quantities (1-based rows of `unitTypes`). -/')
+        L.append('def baseTypes : BaseTypes := ⟨%d, %d, %d, %d, %d, %d⟩' % (
+            ui.get('Unit::Time', 0), ui.get('Unit::Length', 0), ui.get('Unit::Mass', 0),
+            ui.get('Unit::ElectricCurrent', 0), ui.get('Unit::Temperature', 0), ui.get('Unit::SubstanceAmount', 0)))
+        us = [e for e in t['enums'] if e['name'] == 'UnitSystem'][0]
+        L.append('def unitSystemValues : List Nat := [%s]' % ', '.join(str(x[1]) for x in us['enumerators']))
         for f in ('32', '64', '80'):
             neg, m, e = sexpr.dyadic(sexpr.hex_to_fraction(t['pi'][f]))
             L.append('def pi%s : Nat × Int := (%d, %s)' % (f, m, lint(e)))
@@ -827,6 +835,23 @@ def emit_angle_lists(em):
     emit_list_with_obligation(em, 'AngleEntries', 'Entry', rows_all, imports, 'Chk.C11clamp', 'C11clamp')
     emit_list_with_obligation(em, 'AngleSym', 'Entry × Entry', rows_sym, imports, 'Chk.C11sym', 'C11sym')
     emit_list_with_obligation(em, 'AngleKernel', 'Entry × Entry', rows_ker, imports, 'Chk.C11kernel', 'C11kernel')
+
+
+def emit_table_obligations(em):
+    def one(name, stmt):
+        L = ['-- GENERATED by emit_lean.py -- obligations discharged by kernel evaluation.',
+             'import PhQVerif.Checkers', 'set_option maxRecDepth 100000',
+             'namespace PhQVerif.Generated.Obl', '',
+             'theorem %s : %s := by decide +kernel' % (name, stmt), '', 'end PhQVerif.Generated.Obl']
+        em.write('Obl_%s.lean' % name, '\n'.join(L) + '\n')
+    one('C06unit', 'unitTypes.all Chk.C06unit = true')
+    one('C06class', 'classes.all Chk.C06class = true')
+    one('C07', 'unitTypes.all Chk.C07 = true')
+    one('C08unit', 'unitTypes.all Chk.C08unit = true')
+    one('C08plain', 'plainEnums.all Chk.C08plain = true')
+    one('C08spell', 'unitTypes.all Chk.C08spell = true')
+    for f in (32, 64, 80):
+        one('C01k%d' % f, '(unitTypes.zip kernelsByType%d).all (Chk.C01 .f%d) = true' % (f, f))
 
 
 def emit_dircast(em):
